@@ -7,7 +7,7 @@ import ast
 from hsa.core import AnalysisError, Repo, Report, body_walk, call_name, dotted, find_assign, kwarg, last_attr, src
 from hsa.fold import UNKNOWN, class_consts, fold_in
 from hsa.keccak import selector
-from hsa.rules.common import guard_set, if_chain, method_calls
+from hsa.rules.common import csrc, guard_set, if_chain, method_calls
 from hsa.spec.forge_sigs import ENCODERS, HEVM, SVM
 
 EXPLANATION = (
@@ -53,7 +53,7 @@ def r14_1_prank_consumption(repo: Repo, rep: Report):
     rep.check("R14.1", ok, m, rp, "resolve_prank: lookup on this frame's prank; defaults are this()/origin()", "without a prank the sender is the executing contract and the origin is inherited")
     mc, lk = repo.fn("cheatcodes.Prank.lookup")
     ifs = [i for i in body_walk(lk) if isinstance(i, ast.If)]
-    ok = bool(ifs) and src(ifs[0].test) == "self and to not in [halmos_cheat_code.address, hevm_cheat_code.address]"
+    ok = bool(ifs) and csrc(ifs[0].test) == csrc("self and to not in [halmos_cheat_code.address, hevm_cheat_code.address]")
     rep.check("R14.1", ok, mc, ifs[0] if ifs else lk, f"lookup: if {src(ifs[0].test) if ifs else '?'}", "cheatcode calls must not consume (or be affected by) the prank")
     t = src(lk)
     ok = "result = self.active" in t and "if not self.keep:\n        self.stopPrank()" in t.replace("            ", "        ") or ("if not self.keep:" in t and "self.stopPrank()" in t and "return result" in t)
